@@ -1,0 +1,69 @@
+//go:build verif
+
+package dtlcp
+
+import "time"
+
+// Verification hooks (build tag `verif` only) for the flight / retransmission check:
+// read-only views of the retransmission timer, the epochs, the handshake step marker and
+// the agreed keys. Nothing here is compiled without the tag.
+
+// VerifFlightState is a snapshot of the retransmission-related state of a connection.
+type VerifFlightState struct {
+	HsState      int32 // statePreparing(0) / stateSending(1) / stateWaiting(2) / stateFinished(3)
+	TimerInitial time.Duration
+	TimerCurrent time.Duration
+	TimerMax     time.Duration
+	TimerArmed   bool // a TimerHandle is currently held
+	ReadEpoch    uint16
+	WriteEpoch   uint16
+	MessageSeq   uint16
+	PendingApp   int  // len(readBuf): decrypted application data waiting for Read
+	InCipher     bool // a read cipher is active
+	DeferredCCS  bool
+	Dwell        bool // inside the post-handshake dwell period bookkeeping
+}
+
+// VerifFlights returns the snapshot. It takes no lock: call it only while no goroutine is
+// inside the connection (the harness does so after Handshake/Read/Write returned).
+func VerifFlights(c *Conn) VerifFlightState {
+	s := VerifFlightState{
+		HsState:     c.hsState.Load(),
+		ReadEpoch:   c.readEpoch,
+		WriteEpoch:  c.writeEpoch,
+		MessageSeq:  c.messageSeq,
+		PendingApp:  len(c.readBuf),
+		InCipher:    c.in.cipher != nil,
+		DeferredCCS: c.in.deferredCCS,
+		Dwell:       !c.dwellDeadline.IsZero(),
+	}
+	if t := c.retransmitTimer; t != nil {
+		s.TimerInitial, s.TimerCurrent, s.TimerMax, s.TimerArmed = t.initial, t.current, t.max, t.handle != nil
+	}
+	return s
+}
+
+// VerifAgreedKeys returns what both ends must share after a completed handshake: the two
+// Finished values this end recorded and the work key derived from the master secret and both
+// randoms. (A Finished value an end does not record on its path is all zero.)
+func VerifAgreedKeys(c *Conn) (clientFinished, serverFinished [12]byte, workKey []byte) {
+	return c.clientFinished, c.serverFinished, append([]byte(nil), c.workKey...)
+}
+
+// VerifRetransmitSchedule drives a fresh RetransmitTimer exactly as the handshake code does
+// (reset, then k back-offs) with a timer factory that never fires, and returns the successive
+// values of `current`: element 0 is the value after reset.
+func VerifRetransmitSchedule(initial, max time.Duration, k int) []time.Duration {
+	nt := func(time.Duration) *TimerHandle {
+		return &TimerHandle{C: make(chan time.Time), Stop: func() bool { return true }, Reset: func(time.Duration) bool { return true }}
+	}
+	t := newRetransmitTimer(initial, max, nt)
+	t.reset()
+	out := []time.Duration{t.current}
+	for i := 0; i < k; i++ {
+		t.backoff()
+		out = append(out, t.current)
+	}
+	t.stop()
+	return out
+}
